@@ -32,6 +32,9 @@ def main(run):
     import isel
     run.extra["isel_tables"] = isel.gen_tables()
     ok = run.proof("Props/C02.v")
+    # the binary encoders of module.go (LEB128, strings, sections, locals): Props/C02Enc.v + correspondence through hooks/wasmenc
+    import c02enc
+    c02enc.stage(run)
     progs, feats = c01.gen_programs(run, n, 25 if quick else 60, 3 if quick else 5, False, fnlits=False)
     # a few long functions (well over 64 basic blocks each: block indices need more than one LEB128 byte, deep dispatch)
     for _ in range(3 if quick else 12):
@@ -104,7 +107,7 @@ def main(run):
         run.dist[k] = v
     run.rule = ("type-directed random FerretCore programs (ints of 8 widths, bool, by-value structs with integer fields, methods with value receivers, functions, recursion, while, ranges with inclusive bounds and steps, match, casts), each compiled for "
                 "native and wasm and executed (node + runtime/wasm/runtime.js); distinct = distinct source text")
-    run.assumptions = ["V8/node and the wasm binary encoder are trusted", "floats compared numerically (none generated in FerretCore v1)"]
+    run.assumptions = ["V8/node and the section assembly of ModuleBuilder.emit around the proved encoders (LEB128 integers, strings, section framing, locals: Props/C02Enc.v) are trusted", "floats compared numerically (none generated in FerretCore v1)"]
     # third leg: the reference model on the native outputs (same comparison C01 does), so that 'both wrong the same way' is visible
     bad = c01.model_check("c02", progs, observed)
     nref = sum(1 for i, v in bad.items() if v == "diff" and nat[i].get("rc") == 0)
